@@ -169,13 +169,13 @@ CLAIMED = {
  "C05": ("proof",
   "Lean 4 model of the context manager over regenerated limit functions: kill_exact / kill_monotone / no_step_after_kill theorems + level A/B correspondence on the real Runtime + Lua-level limit sweeps",
   "Props/C05.lean: limited_metered, kill_step_exact, kill_exact (killed iff L <= usage for every request list), kill_monotone, results_identical_when_not_killed, cpu_never_reaches_limit, kill_is_final, "
-  "no_step_after_kill, kill_returns_to_parent. Model/Ctx.lean mirrors runtimecontextmanager.go operation by operation on top of the REGENERATED Generated.Resources (smallerLimit, atLimit, Remove, Merge, Dominates, flag/status constants); Model/CallCtx.lean is Thread.CallContext with the deferred pop and recover explicit. Level B compares the whole context stack (limits, used, status, due, flags of every Parent()) after every operation on a real *rt.Runtime over 36^3 exhaustive boundary histories, random histories incl. API abuse near 2^64 and random CallContext trees; level A re-checks the Spec.Quota relations on the implementation's own trace; Lua legs sweep limits around each generated program's own usage. The Lua leg checks killed iff L <= u, identical trace when not killed, killed trace is a prefix, used < L on generated programs "
+  "no_step_after_kill; and for the repaired propagation (0426709, mirrored in Model.CallCtx: recorded resource + propagateTermination): limitless_bracket_cannot_absorb (every well-formed body), uninterceptable, kill_exact_nested, kill_exact_nested_from_root, kill_monotone_nested (programs of requests and ANY nesting of limit-less brackets: killed iff L <= used + cost, the refused request is the last event), child_with_own_limit_dies_alone. Model/Ctx.lean mirrors runtimecontextmanager.go operation by operation on top of the REGENERATED Generated.Resources (smallerLimit, atLimit, Remove, Merge, Dominates, flag/status constants); Model/CallCtx.lean is Thread.CallContext with the deferred pop and recover explicit. Level B compares the whole context stack (limits, used, status, due, flags of every Parent()) after every operation on a real *rt.Runtime over 36^3 exhaustive boundary histories, random histories incl. API abuse near 2^64 and random CallContext trees; level A re-checks the Spec.Quota relations on the implementation's own trace; Lua legs sweep limits around each generated program's own usage. The Lua leg checks killed iff L <= u, identical trace when not killed, killed trace is a prefix, used < L on generated programs "
   "(pcall loops, coroutines, handlers) x ~40 limits each.",
   "Time limits, message handlers and coroutines are outside the model; 'real work between two counter increments is bounded' is sampled by amplification templates only (not proved). The interception of kills "
-  "through pcall found by this check is repaired in /repo (0426709); model and theorems for the repaired propagation are being brought to full strength (see DESIGN 14).", "6/C05, 14/C05"),
+  "through pcall found by this check is repaired in /repo (0426709) and the repaired behaviour is proved (uninterceptable / kill_exact_nested) and swept at Lua level through pcall / xpcall / callcontext{} / coroutine wrappers; no known finding left.", "6/C05, 14/C05"),
  "C06": ("proof",
   "Lean 4 model of memory accounting over regenerated limit functions: never-reaches-limit / monotone / balanced-release theorems + level A/B correspondence + Lua-level limit sweeps and amplification templates",
-  "Props/C06.lean: mem_never_reaches_limit, mem_kill_step_exact, mem_kill_monotone, release_no_underflow_in_frame, release_unlimited_is_noop, require_release_paired (compile pipeline model), and proved "
+  "Props/C06.lean: mem_never_reaches_limit, mem_kill_step_exact, mem_kill_monotone, limitless_bracket_cannot_absorb_mem, mem_kill_monotone_nested (two-run simulation through any nesting of limit-less brackets), mem_program_killed_by_memory, release_no_underflow_in_frame, release_unlimited_is_noop, require_release_paired (compile pipeline model), and proved "
   "counterexamples for release across frames. Model/Ctx.lean mirrors runtimecontextmanager.go operation by operation on top of the REGENERATED Generated.Resources (smallerLimit, atLimit, Remove, Merge, Dominates, flag/status constants); Model/CallCtx.lean is Thread.CallContext with the deferred pop and recover explicit. Level B compares the whole context stack (limits, used, status, due, flags of every Parent()) after every operation on a real *rt.Runtime over 36^3 exhaustive boundary histories, random histories incl. API abuse near 2^64 and random CallContext trees; level A re-checks the Spec.Quota relations on the implementation's own trace; Lua legs sweep limits around each generated program's own usage. Amplification templates (rep, concat, unpack, char, format, pack, load, coroutine.create loops, table growth) x N up to 2^40 under 1 MiB with a TotalAlloc bound.",
   "Real heap growth versus accounted memory is sampled (TotalAlloc under GOMEMLIMIT), not proved; the charge-site extractor of the plan is not built. One recorded design-level defect: a coroutine charged in "
   "one context and released in another (MEMREL-CORO: 'Too much mem released').", "6/C06, 14/C06"),
